@@ -69,7 +69,7 @@ def cases(draw):
     nprog = draw(st.integers(2, 3))
     progs = []
     for i in range(nprog):
-        kind = draw(st.sampled_from(["generic", "generic", "files", "tags", "partial", "dataflow"]))
+        kind = draw(st.sampled_from(["generic", "generic", "files", "tags", "partial", "dataflow", "dataflow"]))
         if kind == "generic":
             progs.append(draw(P.programs(max_depth=3, modes=("node", "dnode"), errors=True)))
         elif kind == "dataflow":
